@@ -182,7 +182,56 @@ static void c03_child(const void *job, size_t n) {
 	res_finish();
 }
 
-void c03_register(void) { harness_register("c03.hist", c03_child); }
+
+/* ---------------------------------------------------------------- c03.sched (E1): the budget under concurrency
+ * Node A starts with 40 of 48 bytes in use (8 unanswered pings).  Two PONG answers are waiting in the input; the receiver
+ * credits them while two application threads submit further requests (5-byte and 21-byte answers).  For every schedule:
+ *  - at every write of the library, the answer sizes of all requests to A written so far, minus 5 bytes for every PONG packet
+ *    the read callback had completely delivered when that write was made (a correct implementation cannot credit earlier),
+ *    is <= 48;
+ *  - messages to A are on the wire in sequence-number order exactly once;
+ *  - at quiescence nothing is held that would fit. */
+static void *cs_t1(void *arg) { (void) arg; bidib_send_sys_ping(NA[0], 0x31, 0); bidib_send_sys_ping(NA[0], 0x32, 0); bidib_flush(); return NULL; }
+static void *cs_t2(void *arg) { (void) arg; bidib_send_bm_get_range(NA[0], 0, 8, 0); bidib_send_sys_ping(NA[0], 0x41, 0); bidib_flush(); return NULL; }
+static void c03_sched_child(const void *job, size_t n) {
+	vs_dev_t devs[VS_MAXDEV]; int nd; size_t pl; const uint8_t *p = job_parse(job, n, devs, &nd, &pl); (void) p;
+	hx_child_begin(devs, nd, 1, NULL, 0, 0);
+	if (hx_start_debug(0)) res_infra("start failed");
+	hx_quiesce();
+	for (int i = 0; i < 8; i++) bidib_send_sys_ping(NA[0], (uint8_t) i, 0);
+	bidib_flush(); hx_quiesce();
+	size_t in_base = env_bytes_consumed(); size_t ans_end[2]; size_t off = 0;
+	for (int k = 0; k < 2; k++) { uint8_t d = (uint8_t) k, m[16], f[40]; int ml = rc_build_msg(m, NADDR[0], (uint8_t) (k + 1), MSG_SYS_PONG, &d, 1); size_t fl = rc_frame(f, m, (size_t) ml, 1); env_push_quiet(f, fl); off += fl; ans_end[k] = in_base + off; }
+	vs_window(1);
+	int t1 = vs_spawn(cs_t1, NULL), t2 = vs_spawn(cs_t2, NULL);
+	vs_join_tid(t1); vs_join_tid(t2); hx_quiesce();
+	vs_window(0);
+	bidib_flush(); hx_quiesce(); drain_queues();
+	/* oracle over the write log */
+	static rc_pkt_t pk[64]; char err[200]; int used = 0, lastseq = 0, count = 0; hx_hash_t h; hx_hash_init(&h);
+	for (int w = 0; w < env_nwrites(); w++) {
+		const env_write_t *W = &env_writes()[w];
+		int np = rc_decode_strict(env_out() + W->off, W->len, pk, 64, err, sizeof err);
+		if (np < 0) continue;      /* a packet split over several writes: C01's subject; the complete stream is checked below */
+		int credit = 0; for (int k = 0; k < 2; k++) if (W->consumed >= ans_end[k]) credit += 5;
+		for (int i = 0; i < np; i++) for (int j = 0; j < pk[i].nmsgs; j++) { rc_msg_t *m = &pk[i].msgs[j]; if (memcmp(m->addr, NADDR[0], 4)) continue;
+			used += m->type < 128 ? rf_resp[m->type].size : 0; count++;
+			if (m->seq != lastseq + 1) res_violation("order: messages to a node are not on the wire in submission order exactly once", "sequence %d after %d", m->seq, lastseq);
+			lastseq = m->seq; hx_hash_add(&h, &m->type, 1);
+			if (used - credit > 48) { res_violation("budget-exceeded: more than 48 bytes of worst-case answers outstanding at a node", "write %d: %d bytes requested in total, %d bytes credited by the %d answer(s) the library had read by then", w, used, credit, credit / 5); goto done; } }
+	}
+done:;
+	vx_node_info_t ni; if (vx_node_info(NADDR[0], &ni)) {
+		uint8_t types[8]; int ndf = vx_node_deferred(NADDR[0], types, 8);
+		if (ndf > 0 && !ni.stall && ni.used + rf_resp[types[0] & 127].size <= 48) res_violation("stranded-at-quiescence: the oldest held message fits the budget but was not transmitted", "used %d, held %d, head type %02x", ni.used, ndf, types[0]);
+		if (count + ndf != 12) res_violation("message-count", "%d on the wire + %d held, 12 submitted", count, ndf);
+		hx_hash_add(&h, &ndf, sizeof ndf);
+	}
+	hx_emit_ledger_violations("C03");
+	res_printf("O %llx %llx\n", (unsigned long long) h.a, (unsigned long long) h.b);
+	hx_emit_trace(); res_finish();
+}
+void c03_register(void) { harness_register("c03.hist", c03_child); harness_register("c03.sched", c03_sched_child); }
 
 int c03_run(const char *tier) {
 	int thorough = !strcmp(tier, "thorough"); g_thorough = thorough;
@@ -191,6 +240,9 @@ int c03_run(const char *tier) {
 	e2_spec_t s = { .harness = "c03.hist", .param = param, .nparam = 1, .nevents = n_events(thorough),
 	                .max_depth = d ? atoi(d) : (thorough ? 6 : 5), .label = "c03.hist", .evname = evname };
 	e2_explore(&s);
+	{ e1_spec_t es = { .harness = "c03.sched", .param = "", .nparam = 0, .bound = thorough ? 3 : 2, .label = "c03.sched two senders || receiver crediting answers" };
+	  e1_explore(&es); long ex = 0; for (int k = 0; k < 8; k++) ex += es.schedules_by_cost[k]; s.execs += ex; s.states += es.distinct_outcomes; s.transitions += es.choice_points; if (!es.exhaustive) s.exhaustive = 0;
+	  rep_note("c03.sched: bound=%d completed=%d schedules by cost=[%ld,%ld,%ld,%ld] distinct outcomes=%ld contended=%ld", es.bound, es.completed_bound, es.schedules_by_cost[0], es.schedules_by_cost[1], es.schedules_by_cost[2], es.schedules_by_cost[3], es.distinct_outcomes, es.contended_execs); }
 	rep_count("states", s.states); rep_count("transitions", s.transitions); rep_count("executions", s.execs);
 	rep_count("depth_completed", s.depth_completed); rep_flag("exhaustive", s.exhaustive);
 	char sb[256]; size_t o = 0; for (int i = 0; i <= s.depth_completed + 1 && i < 16; i++) o += (size_t) snprintf(sb + o, sizeof sb - o, "%ld ", s.states_by_depth[i]);
